@@ -27,6 +27,21 @@ def make_copy(src="/repo"):
 
 
 def apply(root, mut):
+    if "revert" in mut:
+        log = subprocess.run(["git", "-C", "/repo", "log", "--format=%h\t%s"], capture_output=True, text=True).stdout.splitlines()
+        hits = [l.split("\t")[0] for l in log if l.split("\t", 1)[1].startswith(mut["revert"])]
+        if len(hits) != 1:
+            raise RuntimeError("mutant %s: %d commits match %r" % (mut["id"], len(hits), mut["revert"]))
+        diff = subprocess.run(["git", "-C", "/repo", "show", "--format=", hits[0], "--", "basic_robotics"], capture_output=True, text=True).stdout
+        r = subprocess.run(["patch", "-R", "-p1", "-s", "-d", root], input=diff, text=True, capture_output=True)
+        if r.returncode != 0:
+            raise RuntimeError("mutant %s: reverse patch failed: %s" % (mut["id"], r.stdout + r.stderr))
+        return
+    if "patch" in mut:
+        r = subprocess.run(["patch", "-p1", "-s", "-d", root], input=open(mut["patch"]).read(), text=True, capture_output=True)
+        if r.returncode != 0:
+            raise RuntimeError("mutant %s: patch failed: %s" % (mut["id"], r.stdout + r.stderr))
+        return
     p = os.path.join(root, mut["file"])
     s = open(p).read()
     cnt = s.count(mut["old"])
@@ -76,7 +91,7 @@ def main():
                 res[p] = run_check(p, root, a.tier)
                 print("%-28s %s fired=%s rc=%d %.0fs %s" % (mut["id"], p, res[p]["fired"], res[p]["rc"], res[p]["wall_s"],
                                                           (res[p]["first"] or [res[p]["tail"]])[0][:150]), flush=True)
-            results[mut["id"]] = {"desc": mut["desc"], "file": mut["file"], "results": res}
+            results[mut["id"]] = {"desc": mut["desc"], "file": mut.get("file", mut.get("revert", mut.get("patch"))), "results": res}
         finally:
             h = jit_source_hash(root)
             shutil.rmtree(root, ignore_errors=True)
